@@ -19,12 +19,23 @@
 // E: d.Edits after New.  N / A / U: d.Chunks after New, after AddContext(n), after Unify:
 // "." or '_'-joined chunks  LStart;LEnd;RStart;REnd;<edits>.  A panic is "panic:<kind>" (later
 // stages then print "-").
+// HISTORIES: any sequence of the exported chunk operations after New:
+//
+//	H <ops> <script> <lhs> <rhs> | E=<script> N=<chunks> H=<chunks>!<chunks>!... K=<flags>
+//	HC <ops> <lhs> <rhs>         | (same output; no oracle, composed model)
+//
+// ops: comma-separated calls, a<n> = d.AddContext(n) (any int64 n, also negative), u = d.Unify().
+// H: d.Chunks after every call, '!'-separated (a panic ends the list with "panic:<kind>").
+// K: three flags: d.Edits unchanged after every call; lhs, rhs, d.Left, d.Right unchanged at the
+// end; every call returned its receiver.
+//
 // K: four flags: d.Edits unchanged (deep comparison with a copy taken after New) after
 // AddContext; the same after Unify; lhs and rhs unchanged at the end; AddContext and Unify
 // returned their receiver.
 package main
 
 import (
+	"math"
 	"os"
 	"strconv"
 	"strings"
@@ -120,8 +131,93 @@ func input(n int, lhs, rhs []string) string {
 	return "D " + strconv.Itoa(n) + " " + oracle(lhs, rhs) + " " + tr.HexList(lhs) + " " + tr.HexList(rhs)
 }
 
+func parseOps(s string) (ops []int, isUnify []bool, ok bool) {
+	if s == "." || s == "" {
+		return nil, nil, true
+	}
+	for _, w := range strings.Split(s, ",") {
+		switch {
+		case w == "u":
+			ops, isUnify = append(ops, 0), append(isUnify, true)
+		case strings.HasPrefix(w, "a"):
+			n, err := strconv.Atoi(w[1:])
+			if err != nil {
+				return nil, nil, false
+			}
+			ops, isUnify = append(ops, n), append(isUnify, false)
+		default:
+			return nil, nil, false
+		}
+	}
+	return ops, isUnify, true
+}
+
+func fmtOps(ops []int, isUnify []bool) string {
+	if len(ops) == 0 {
+		return "."
+	}
+	out := make([]string, len(ops))
+	for i := range ops {
+		if isUnify[i] {
+			out[i] = "u"
+		} else {
+			out[i] = "a" + strconv.Itoa(ops[i])
+		}
+	}
+	return strings.Join(out, ",")
+}
+
+func execHist(opsS, lhsS, rhsS string) string {
+	ops, isUnify, ok := parseOps(opsS)
+	if !ok {
+		return "?"
+	}
+	lhs0, rhs0 := tr.UnHexList(lhsS), tr.UnHexList(rhsS)
+	lhs, rhs := padded(lhs0), padded(rhs0)
+	var d *mdiff.Diff
+	if p := tr.Catch(func() { d = mdiff.New(lhs, rhs) }); p != "" {
+		return "E=- N=" + p + " H=- K=-"
+	}
+	out := "E=" + fmtEdits(d.Edits) + " N=" + fmtChunks(d.Chunks)
+	snap := copyEdits(d.Edits)
+	same, ret := true, true
+	var stages []string
+	for i := range ops {
+		var d2 *mdiff.Diff
+		p := tr.Catch(func() {
+			if isUnify[i] {
+				d2 = d.Unify()
+			} else {
+				d2 = d.AddContext(ops[i])
+			}
+		})
+		if p != "" {
+			stages = append(stages, p)
+			return out + " H=" + strings.Join(stages, "!") + " K=-"
+		}
+		ret = ret && d2 == d
+		same = same && sameEdits(snap, d.Edits)
+		stages = append(stages, fmtChunks(d.Chunks))
+	}
+	hs := "none"
+	if len(stages) > 0 {
+		hs = strings.Join(stages, "!")
+	}
+	k := tr.B(same)
+	k += tr.B(sameLines(lhs, lhs0) && sameLines(rhs, rhs0) && sameLines(d.Left, lhs0) && sameLines(d.Right, rhs0) &&
+		lhs[:cap(lhs)][len(lhs)] == "SENTINEL" && rhs[:cap(rhs)][len(rhs)] == "SENTINEL")
+	k += tr.B(ret)
+	return out + " H=" + hs + " K=" + k
+}
+
 func exec(in string) string {
 	f := strings.Fields(in)
+	if len(f) == 5 && f[0] == "H" {
+		return execHist(f[1], f[3], f[4])
+	}
+	if len(f) == 4 && f[0] == "HC" {
+		return execHist(f[1], f[2], f[3])
+	}
 	if len(f) == 4 && f[0] == "C" {
 		f = []string{"D", f[1], "", f[2], f[3]}
 	}
@@ -227,6 +323,121 @@ func tagsFor(n int, out string) (bool, []string) {
 	return nN >= 1 && n > 0, tags
 }
 
+// tags of a history case: which situations the sequence of calls went through
+func histTags(ops []int, isUnify []bool, out string) (bool, []string) {
+	var tags []string
+	get := func(key string) string {
+		for _, w := range strings.Fields(out) {
+			if strings.HasPrefix(w, key+"=") {
+				return w[len(key)+1:]
+			}
+		}
+		return ""
+	}
+	type rng struct{ ls, le int }
+	parse := func(s string) []rng {
+		if s == "." || s == "" || s == "-" || strings.HasPrefix(s, "panic:") {
+			return nil
+		}
+		var out []rng
+		for _, c := range strings.Split(s, "_") {
+			p := strings.Split(c, ";")
+			if len(p) < 5 {
+				continue
+			}
+			a, _ := strconv.Atoi(p[0])
+			b, _ := strconv.Atoi(p[1])
+			out = append(out, rng{a, b})
+		}
+		return out
+	}
+	meets := func(cs []rng) (overlap, adjacent bool) {
+		for i := 0; i+1 < len(cs); i++ {
+			if cs[i].le > cs[i+1].ls {
+				overlap = true
+			}
+			if cs[i].le == cs[i+1].ls {
+				adjacent = true
+			}
+		}
+		return
+	}
+	seen := map[string]bool{}
+	add := func(t string) {
+		if !seen[t] {
+			seen[t] = true
+			tags = append(tags, t)
+		}
+	}
+	nN := len(parse(get("N")))
+	stages := strings.Split(get("H"), "!")
+	prev := parse(get("N"))
+	prevS := get("N")
+	effAdds, unifies := 0, 0 // effective AddContext calls since New / Unify calls so far
+	for i := range ops {
+		if i >= len(stages) {
+			break
+		}
+		cur := parse(stages[i])
+		if isUnify[i] {
+			ov, adj := meets(prev)
+			switch {
+			case effAdds == 0 && unifies == 0:
+				add("hist-unify-before-any-context")
+			case i > 0 && isUnify[i-1]:
+				add("hist-unify-twice")
+			}
+			if len(cur) < len(prev) {
+				add("hist-unify-merged")
+				if unifies > 0 {
+					add("hist-second-unify-merged")
+				}
+			}
+			if ov && effAdds >= 2 {
+				add("hist-unify-overlap-after-several-adds")
+			}
+			if adj {
+				add("hist-unify-adjacent")
+			}
+			unifies++
+		} else {
+			n := ops[i]
+			switch {
+			case n < 0:
+				add("hist-n-negative")
+			case n == 0:
+				add("hist-n-zero")
+			case n > 1<<40:
+				add("hist-n-huge")
+			}
+			if n > 0 && nN > 0 {
+				ov, adj := meets(prev)
+				if effAdds > 0 && unifies == 0 {
+					add("hist-add-after-add")
+				}
+				if unifies > 0 {
+					add("hist-add-after-unify")
+				}
+				if ov {
+					add("hist-add-on-overlapping")
+				}
+				if adj {
+					add("hist-add-on-adjacent")
+				}
+				if stages[i] != prevS {
+					add("hist-add-effective")
+					if effAdds > 0 {
+						add("hist-later-add-effective")
+					}
+				}
+				effAdds++
+			}
+		}
+		prev, prevS = cur, stages[i]
+	}
+	return nN >= 1 && len(ops) >= 2, tags
+}
+
 func randLines(r *tr.Rand, alpha []string, n int) []string {
 	out := make([]string, n)
 	for i := range out {
@@ -269,7 +480,7 @@ func mutate(r *tr.Rand, alpha []string, lhs []string) []string {
 	return out
 }
 
-const rule = "C13: New(lhs, rhs).AddContext(n).Unify() on every pair of line sequences of length <= 5 over 2 symbols for every n in 0..3 (15876 cases, every run); every pair of length <= 3 (quick) / 4 (thorough) over 3 symbols, n in 0..3; random repetitive texts (a short block repeated with disturbances), random texts, and texts derived from one another by a few local edits (long common runs), lengths up to 40, alphabets of 2-4 lines including the empty line, n from {0,1,2,3,5,8,100} (n larger than every gap). The edit script slice.EditScript returned is recorded with the input (oracle) and compared with d.Edits; every fourth case carries no oracle and is predicted by the composed model (model of slice.EditScript + chunk model). A case is non-trivial when there is at least one chunk and n > 0; counters say how many cases had several chunks, overlapping or adjacent chunks after AddContext, chunks merged by Unify, chunks kept apart by Unify."
+const rule = "C13: New(lhs, rhs).AddContext(n).Unify() on every pair of line sequences of length <= 5 over 2 symbols for every n in 0..3 (15876 cases, every run); every pair of length <= 3 (quick) / 4 (thorough) over 3 symbols, n in 0..3; random repetitive texts (a short block repeated with disturbances), random texts, and texts derived from one another by a few local edits (long common runs), lengths up to 40, alphabets of 2-4 lines including the empty line, n from {0,1,2,3,5,8,100} (n larger than every gap). The edit script slice.EditScript returned is recorded with the input (oracle) and compared with d.Edits; every fourth case carries no oracle and is predicted by the composed model (model of slice.EditScript + chunk model). n also from {-1, MaxInt64, MinInt64}. HISTORIES (H/HC lines): after New, any sequence of AddContext(n_i) and Unify calls: 23 fixed sequences (Unify alone, Unify twice, AddContext twice with equal/growing/shrinking n, AddContext after Unify, Unify-AddContext-Unify, negative/zero/MaxInt64/MinInt64 n in between) on every pair of sequences of length <= 4 (quick) / 5 (thorough) over 2 symbols, and a random sequence of 2-7 calls (n from {1,2,3,4,6,0,-1,100,MaxInt64,MinInt64}) on every second random pair; d.Chunks recorded after every call. A case is non-trivial when there is at least one chunk and n > 0 (pipeline) or at least two calls (history); counters say how many cases had several chunks, overlapping or adjacent chunks after AddContext, chunks merged by Unify, chunks kept apart by Unify."
 
 func gen(g *tr.G) {
 	k := 0
@@ -289,6 +500,52 @@ func gen(g *tr.G) {
 			g.W.Count(t, 1)
 		}
 	}
+	emitHist := func(ops []int, isUnify []bool, lhs, rhs []string, tag string) {
+		in := "H " + fmtOps(ops, isUnify) + " " + oracle(lhs, rhs) + " " + tr.HexList(lhs) + " " + tr.HexList(rhs)
+		if k++; k%4 == 0 {
+			in = "HC " + fmtOps(ops, isUnify) + " " + tr.HexList(lhs) + " " + tr.HexList(rhs)
+			g.W.Count("composed-no-oracle", 1)
+		}
+		out := g.Emit(in, false)
+		nt, tags := histTags(ops, isUnify, out)
+		if nt {
+			g.W.NonTriv++
+		}
+		g.W.Count(tag, 1)
+		for _, t := range tags {
+			g.W.Count(t, 1)
+		}
+	}
+	// ---- histories: every sequence of calls a user can write after New
+	const U = -999 // marker for Unify in the tables below
+	mk := func(xs ...int) ([]int, []bool) {
+		ops, un := make([]int, len(xs)), make([]bool, len(xs))
+		for i, x := range xs {
+			if x == U {
+				un[i] = true
+			} else {
+				ops[i] = x
+			}
+		}
+		return ops, un
+	}
+	fixed := [][]int{
+		{U}, {U, U}, {1, 1}, {1, 1, U}, {1, 2, U}, {2, 1, U}, {1, 1, 1, U}, {1, U, 1, U}, {2, U, 1, U}, {1, U, 2, U},
+		{U, 1, U}, {1, U, U}, {1, 3, U}, {3, 1, U}, {1, U, 1, 1, U}, {-1, 1, U}, {1, -1, U}, {1, 0, 1, U},
+		{math.MaxInt, U}, {1, math.MaxInt, U}, {math.MinInt, 1, U}, {1, U, math.MaxInt, U}, {2, 2, U, 2, U},
+	}
+	hseqs := allSeqs([]string{"a", "b"}, g.Scale(4, 5))
+	for _, l := range hseqs {
+		for _, r := range hseqs {
+			if len(l)+len(r) < 3 {
+				continue
+			}
+			for _, h := range fixed {
+				ops, un := mk(h...)
+				emitHist(ops, un, l, r, "hist-exhaustive-2")
+			}
+		}
+	}
 	two := allSeqs([]string{"a", "b"}, 5)
 	for _, l := range two {
 		for _, r := range two {
@@ -306,7 +563,8 @@ func gen(g *tr.G) {
 		}
 	}
 	alphas := [][]string{{"a", "b"}, {"a", "b", "c"}, {"a", "b", "", "line"}, {"x", "y", "z", "w"}}
-	ns := []int{0, 1, 1, 2, 2, 3, 3, 5, 8, 100}
+	ns := []int{0, 1, 1, 2, 2, 3, 3, 5, 8, 100, -1, math.MaxInt, math.MinInt}
+	hns := []int{1, 1, 1, 2, 2, 3, 4, 6, 0, -1, 100, math.MaxInt, math.MinInt}
 	for i := 0; i < g.Scale(6000, 250000); i++ {
 		alpha := tr.Pick(g.R, alphas)
 		n := tr.Pick(g.R, ns)
@@ -326,6 +584,19 @@ func gen(g *tr.G) {
 			lhs, rhs, tag = randLines(g.R, alpha, ll), randLines(g.R, alpha, g.R.Intn(30)), "random"
 		}
 		emit(n, lhs, rhs, tag)
+		// the same pair under a random history of calls
+		if i%2 == 0 {
+			nops := 2 + g.R.Intn(6)
+			ops, un := make([]int, nops), make([]bool, nops)
+			for j := range ops {
+				if g.R.Chance(1, 3) {
+					un[j] = true
+				} else {
+					ops[j] = tr.Pick(g.R, hns)
+				}
+			}
+			emitHist(ops, un, lhs, rhs, "hist-"+tag)
+		}
 	}
 }
 
@@ -355,6 +626,10 @@ func main() {
 			if len(f) == 5 && f[0] == "D" {
 				n, _ := strconv.Atoi(f[1])
 				in = input(n, tr.UnHexList(f[3]), tr.UnHexList(f[4]))
+			}
+			if len(f) == 5 && f[0] == "H" {
+				lhs, rhs := tr.UnHexList(f[3]), tr.UnHexList(f[4])
+				in = "H " + f[1] + " " + oracle(lhs, rhs) + " " + f[3] + " " + f[4]
 			}
 			w.Case(in, exec(in), true, "replayed")
 		}
